@@ -152,8 +152,32 @@ fn str_schema(p: Profile) -> BoxedStrategy<Value> {
     }
 }
 
+/// string enum / const combined with length keywords (lengths count characters, not bytes)
+fn str_enum_schema() -> BoxedStrategy<Value> {
+    let val = prop_oneof![Just("abc"), Just("héé"), Just("日本"), Just("a"), Just("😀😀"), Just(""), Just("é€"), Just("ab"), Just("xyz!"), Just("ñandú")];
+    (proptest::collection::vec(val, 1..5), proptest::option::weighted(0.7, 0u64..5), proptest::option::weighted(0.3, 0u64..3), any::<bool>())
+        .prop_map(|(vals, maxl, minl, as_const)| {
+            let mut m = Map::new();
+            m.insert("type".into(), json!("string"));
+            if as_const {
+                m.insert("const".into(), json!(vals[0]));
+            } else {
+                m.insert("enum".into(), json!(vals));
+            }
+            if let Some(x) = maxl {
+                m.insert("maxLength".into(), json!(x));
+            }
+            if let Some(x) = minl {
+                m.insert("minLength".into(), json!(x));
+            }
+            Value::Object(m)
+        })
+        .boxed()
+}
+
 fn leaf_schema(p: Profile) -> BoxedStrategy<Value> {
     prop_oneof![
+        2 => str_enum_schema(),
         1 => Just(json!({})),
         1 => Just(json!(true)),
         1 => Just(json!({"type":"null"})),
